@@ -6,7 +6,8 @@
           loop over the raw bytes, forwarding) x an environment supplying every case of three
           exhaustive slices (which file / which instructions / unsafe homes, loops, hostile
           addresses); invariants Conforms (= monitor Judge of spec/DotQmail.tla, written from
-          dot-qmail(5), qmail-command(8), qmail-local(8)) and SearchAgrees
+          dot-qmail(5), qmail-command(8), qmail-local(8)) and SearchAgrees; a fourth slice of
+          hand-computed vectors checks P's results and that the monitor rejects falsified observations
   impl    the real qmail-local binary, run as an unprivileged uid in generated home directories
           (.qmail files of every kind and mode, decoys, directories, FIFOs, symbolic links), with -n
           (printed plan) and for real: program lines are probes that log themselves together with a
@@ -14,7 +15,7 @@
           maildir targets inside the home, forwards through QMAILQUEUE = probe + recording stand-in
   verdict TLC evaluates Judge on every record (spec/DotQmailRec.tla)
 """
-import sys, os, json, argparse, shutil, subprocess, re, stat, itertools
+import sys, os, json, argparse, shutil, subprocess, re, itertools
 sys.path.insert(0, os.path.join(os.path.dirname(os.path.abspath(__file__)), "..", "lib"))
 from vlib import *
 import sessions
@@ -468,6 +469,14 @@ def random_cases(rng, count):
 # --------------------------------------------------------------------------
 # running one case on the real binary
 # --------------------------------------------------------------------------
+ROOT = os.geteuid() == 0        # as root: run qmail-local as the unprivileged UID owning the home; else as ourselves
+
+
+def own(p, link=False):
+    if ROOT:
+        (os.lchown if link else os.chown)(p, UID, GID)
+
+
 def subst(b, home):
     return b.replace(H, home)
 
@@ -525,28 +534,28 @@ class Runner:
                 if f["via"] == "symlink":
                     tgt = os.path.join(home, b"real_" + f["nm"].replace(b"/", b"%"))
                     os.symlink(tgt, p)
-                    os.lchown(p, UID, GID)
+                    own(p, True)
                     made.add(os.path.basename(tgt))
                 with open(tgt, "wb") as fh:
                     fh.write(subst(f["body"], home))
                 os.chmod(tgt, f["mode"])
                 p = tgt
-            os.chown(p, UID, GID)
+            own(p)
         for name, kind in c["slots"]:
             if kind == "d":
                 for sub in (b"", b"tmp", b"new", b"cur"):
                     os.mkdir(os.path.join(home, name, sub))
-                    os.chown(os.path.join(home, name, sub), UID, GID)
+                    own(os.path.join(home, name, sub))
         for name, body in c["outside"]:
             with open(os.path.join(D, name), "wb") as fh:
                 fh.write(subst(body, home))
-            os.chown(os.path.join(D, name), UID, GID)
+            own(os.path.join(D, name))
         with open(os.path.join(D, b"msg"), "wb") as fh:
             fh.write(c["msg"])
         with open(os.path.join(D, b"plog"), "wb"):
             pass
         os.chmod(os.path.join(D, b"plog"), 0o666)
-        os.chown(home, UID, GID)
+        own(home)
         os.chmod(home, c["hmode"])
         return D, home
 
@@ -567,7 +576,7 @@ class Runner:
         envb = {k.encode(): v.encode() for k, v in env.items()}
         envb[b"VERIF_PROBE_LOG"] = os.path.join(D, b"plog")
         envb[b"VERIF_PROBE_WATCH"] = b"\n".join(watch)
-        argv = [RUNAS.encode(), b"%d" % UID, b"%d" % GID, self.tree.bin("qmail-local").encode()] + ([b"-n"] if c["n"] else []) + \
+        argv = ([RUNAS.encode(), b"%d" % UID, b"%d" % GID] if ROOT else []) + [self.tree.bin("qmail-local").encode()] + ([b"-n"] if c["n"] else []) + \
                [b"u", home, c["local"], c["dash"], c["ext"], c["host"], c["sender"], subst(c["dflt"], home)]
         with open(os.path.join(D, b"msg"), "rb") as fin:
             p = subprocess.Popen(argv, stdin=fin, stdout=subprocess.PIPE, stderr=subprocess.PIPE, env=envb, cwd="/")
@@ -641,8 +650,10 @@ def esc(b, cap=60):
 
 
 def witness_key(why, c, home):
+    near = candidates(c["dash"], c["ext"])
+    near += [near[0] + b"-owner", near[0] + b"-owner-default"]
     ctl = ";".join("%s=%o:%s" % (esc(f["nm"][6:], 24), f["mode"], f["kind"] if f["kind"] != "reg" else esc(f["body"].replace(H, b"~"), 48))
-                   for f in sorted(c["files"], key=lambda f: f["nm"])[:4])
+                   for f in sorted(c["files"], key=lambda f: (f["nm"] not in near, f["nm"]))[:4])
     return "%s:%shome=%o,dash=%s,ext=%s,rcpt=%s@%s,sender=%s,msg=%s,files=%s" % (
         why, "-n," if c["n"] else "", c["hmode"], esc(c["dash"]), esc(c["ext"], 24), esc(c["local"], 24), esc(c["host"], 16),
         esc(c["sender"], 24), esc(c["msg"], 24), ctl)
@@ -657,7 +668,7 @@ def main():
     ck = Check("C13", a.tier)
     thorough = a.tier == "thorough"
     if not os.access(PROBE, os.X_OK) or not os.access(RUNAS, os.X_OK):
-        raise Infra("build/standin_c13probe missing: run setup.sh")
+        raise Infra("build/standin_c13probe or build/standin_c13run missing: run setup.sh")
 
     # ---- model: three slices, side by side
     def model(sl):
@@ -665,12 +676,14 @@ def main():
         with open(cfg, "w") as f:
             f.write('SPECIFICATION Spec\nCONSTANTS\n Slice = "%s"\n Big = %s\nINVARIANT Conforms\nINVARIANT SearchAgrees\n'
                     % (sl, "TRUE" if thorough else "FALSE"))
-        return sl, tlc("DotQmailP", cfg, workers=max(2, NCPU // 3), timeout=3000, heap="6g")
+            if sl == "T":       # hand-computed vectors: P arrives where expected, and the monitor rejects falsified observations
+                f.write("INVARIANT UnitTests\nINVARIANT MonitorRejects\n")
+        return sl, tlc("DotQmailP", cfg, workers=(2 if sl == "T" else max(2, NCPU // 3)), timeout=3000, heap="6g")
     models = None
     if not a.replay and not os.environ.get("VERIF_C13_NOMODEL"):      # (development aid: real code only)
         import concurrent.futures
-        pool = concurrent.futures.ThreadPoolExecutor(max_workers=3)
-        models = [pool.submit(model, sl) for sl in ("S", "I", "H")]   # run beside the real-code phase, collected below
+        pool = concurrent.futures.ThreadPoolExecutor(max_workers=4)
+        models = [pool.submit(model, sl) for sl in ("S", "I", "H", "T")]   # run beside the real-code phase, collected below
 
     def collect_models():
         for fut in models or []:
@@ -679,7 +692,7 @@ def main():
             ck.add_tlc("DotQmailP(Slice=%s,Big=%s)" % (sl, thorough), res)
             if res.violated:
                 ck.model_violation("DotQmailP/" + sl, res)
-            if res.distinct < 1000:
+            if res.distinct < (100 if sl == "T" else 1000):
                 raise Infra("DotQmailP slice %s explored only %d states" % (sl, res.distinct))
         log("C13: model runs done after %.0f s" % (time.time() - ck.t0))
 
@@ -704,19 +717,23 @@ def main():
     if a.replay:
         cases = [dec_case(json.load(open(a.replay))["case"])]
     else:
-        cases = search_cases(rng, 30 if thorough else 6, 7)
-        cases += interp_cases(rng, 3 if thorough else 2, 4000 if thorough else 500)
+        nrand = 12000 if thorough else 700
+        cases = search_cases(rng, 60 if thorough else 6, 7)
+        cases += interp_cases(rng, 3 if thorough else 2, 6000 if thorough else 500)
         cases += exitcode_cases(rng)
         cases += mode_cases(rng)
         cases += loop_cases(rng)
         cases += hostile_cases(rng, thorough)
         cases += owner_cases(rng)
         cases += default_cases(rng)
-        cases += random_cases(rng, 6000 if thorough else 700)
+        cases += random_cases(rng, nrand)
     jobs = list(enumerate(cases, 1))
     t1 = time.time()
     obs = sessions.pmap(rn.run, jobs)
     log("C13: %d runs of qmail-local in %.0f s" % (len(jobs), time.time() - t1))
+    for k, o in enumerate(obs):
+        if o["hung"]:                                   # once more, under a fresh tag (a loaded machine is not a finding)
+            obs[k] = rn.run((jobs[k][0] + 10 ** 6, jobs[k][1]))
     qrecs = rn.qq.collect()
     hung = sum(1 for o in obs if o["hung"])
     if hung > max(2, len(jobs) // 100):
@@ -728,11 +745,15 @@ def main():
         ck.count((c["n"], c["hmode"], tuple((f["nm"], f["kind"], f["mode"], f["body"]) for f in c["files"]), c["dash"], c["ext"], c["local"],
                   c["host"], c["sender"], c["dflt"], c["msg"]), nontrivial=True)
     collect_models()
-    recfile = ck.scratch.path("c13.ndjson")
-    write_ndjson(recfile, recs)
     t1 = time.time()
-    bad, vres = tlc_validate_records("DotQmailRec", "DotQmailRec.cfg", recfile, len(recs), chunk=100, heap="8g")
-    ck.add_tlc("DotQmailRec", vres)
+    bad, PIECE = [], 8000
+    for lo in range(0, len(recs), PIECE):
+        recfile = ck.scratch.path("c13_%d.ndjson" % lo)
+        write_ndjson(recfile, recs[lo:lo + PIECE])
+        b, vres = tlc_validate_records("DotQmailRec", "DotQmailRec.cfg", recfile, len(recs[lo:lo + PIECE]), chunk=100, heap="8g")
+        bad += [(i + lo, why) for i, why in b]
+        ck.add_tlc("DotQmailRec[%d..]" % lo, vres)
+        os.unlink(recfile)
     log("C13: %d records judged by TLC in %.0f s" % (len(recs), time.time() - t1))
     ck.cov["traces_validated_against_impl"] = len(recs)
     ck.cov["families"] = fam
@@ -751,7 +772,7 @@ def main():
                       "+ random homes; every .qmail body of up to %d lines over %d line forms x (x bit, -n) + random bodies up to 8 lines; every program "
                       "exit code 0..255 and a crash; %d home modes x %d file modes; loop messages; %d hostile senders x recipients; -owner; "
                       "defaultdelivery; %d fully random cases; distinct by the complete case" %
-                      (UID, len(EXTS), 3 if thorough else 2, len(CORE), len(HMODES), len(FMODES), len(SENDERS), 6000 if thorough else 700))
+                      (UID, len(EXTS), 3 if thorough else 2, len(CORE), len(HMODES), len(FMODES), len(SENDERS), 12000 if thorough else 700))
     ck.cov["exhaustive"] = True
     ck.assumptions += [
         "programs are probes at the qmail-command(8) interface; the order of instructions is observed through the probes' snapshots of all delivery targets, the final state of the targets and the queue stand-in's record",
@@ -766,10 +787,11 @@ def main():
         if why == "GENBUG":
             raise Infra("generator produced a line the tables do not describe: %r" % enc_case(c))
         size = sum(len(f["body"]) for f in c["files"]) + len(c["files"]) * 20 + len(c["sender"]) + len(c["local"]) + len(c["msg"])
-        if why not in best or size < best[why][0]:
-            best[why] = (size, c, o)
+        g = (why, c["tag"])                             # smallest witness per failing clause and family of cases
+        if g not in best or size < best[g][0]:
+            best[g] = (size, c, o)
     pending = []
-    for why, (size, c, o) in sorted(best.items()):
+    for (why, _), (size, c, o) in sorted(best.items(), key=lambda kv: (kv[1][0], kv[0])):
         key = witness_key(why, c, o["home"])
         desc = "exit %s, programs/queue runs %s, final message counts %s (slots %s), stray %d, plan %s; stderr %r" % (
             o["rc"], [(e["k"], e["id"], e["snap"]) for e in o["ev"]], o["fin"], [esc(n) for n, _ in c["slots"]], o["stray"],
